@@ -1,5 +1,9 @@
 mod asmref;
 mod engine;
+mod execcheck;
+mod gen;
+mod model;
+mod runner;
 mod isa;
 mod props;
 mod refver;
@@ -67,6 +71,7 @@ fn main() {
             let id = args.get(2).cloned().unwrap_or_else(|| usage());
             replays(&id, &args);
         }
+        "mk" => mk(&args),
         "replay" => {
             let id = args.get(2).cloned().unwrap_or_else(|| usage());
             let file = args.get(3).cloned().unwrap_or_else(|| usage());
@@ -289,3 +294,74 @@ fn check(id: &str, args: &[String]) -> i32 {
 
 #[allow(dead_code)]
 fn _unused(_: Value) {}
+
+
+/// Build a replay file from assembly text:
+///   vrun mk <Cxx> <kind> <name> [--vm nodata|raw|mbuff:D:E|fixed:D:E] [--pkt HEX] [--mbuff HEX]
+///           [--helpers id:pool,...] [--calc pc:size,...[/default]] [--expect pass|known:KEY] [--sig S] --asm TEXT
+/// In TEXT, a line ".fill N" expands to N harmless instructions.
+fn mk(args: &[String]) {
+    let prop = args.get(2).cloned().unwrap_or_else(|| usage());
+    let kind = args.get(3).cloned().unwrap_or_else(|| usage());
+    let name = args.get(4).cloned().unwrap_or_else(|| usage());
+    let asm = arg_value(args, "--asm").unwrap_or_else(|| usage());
+    let mut text = String::new();
+    for line in asm.lines() {
+        let l = line.trim();
+        if let Some(n) = l.strip_prefix(".fill ") {
+            for _ in 0..n.trim().parse::<usize>().unwrap_or(0) {
+                text.push_str("mov64 r9, r9\n");
+            }
+        } else {
+            text.push_str(l);
+            text.push('\n');
+        }
+    }
+    let prog = rbpf::assembler::assemble(&text).expect("assembly error");
+    let vm = match arg_value(args, "--vm").unwrap_or_else(|| "nodata".into()).as_str() {
+        "nodata" => runner::VmKind::NoData,
+        "raw" => runner::VmKind::Raw,
+        other => {
+            let p: Vec<&str> = other.split(':').collect();
+            let d = p.get(1).and_then(|x| x.parse().ok()).unwrap_or(0);
+            let e = p.get(2).and_then(|x| x.parse().ok()).unwrap_or(8);
+            if p[0] == "mbuff" {
+                runner::VmKind::Mbuff { data_off: d, end_off: e }
+            } else {
+                runner::VmKind::Fixed { data_off: d, end_off: e }
+            }
+        }
+    };
+    let mut case = runner::ExecCase::new(vm, prog);
+    case.pkt = isa::unhex(&arg_value(args, "--pkt").unwrap_or_default());
+    case.mbuff = isa::unhex(&arg_value(args, "--mbuff").unwrap_or_default());
+    if let Some(h) = arg_value(args, "--helpers") {
+        for part in h.split(',').filter(|x| !x.is_empty()) {
+            let (a, b) = part.split_once(':').unwrap_or((part, "0"));
+            case.helpers.push((a.parse::<u32>().unwrap_or(0), b.parse::<u8>().unwrap_or(0)));
+        }
+    }
+    if let Some(c) = arg_value(args, "--calc") {
+        let (tbl, def) = c.split_once('/').unwrap_or((c.as_str(), "256"));
+        let t = tbl.split(',').filter(|x| !x.is_empty()).map(|p| { let (a, b) = p.split_once(':').unwrap(); (a.parse().unwrap(), b.parse().unwrap()) }).collect();
+        case.calc = Some((t, def.parse().unwrap_or(256)));
+    }
+    let mut cj = case.to_json();
+    if case.prog.len() > 8 * 400 {
+        cj["listing"] = json!(isa::listing(&case.prog, 8));
+    }
+    let body = json!({
+        "property": prop,
+        "kind": kind,
+        "signature": arg_value(args, "--sig").unwrap_or_default(),
+        "detail": arg_value(args, "--detail").unwrap_or_default(),
+        "seed": 0,
+        "case": cj,
+        "expect": arg_value(args, "--expect").unwrap_or_else(|| "pass".into()),
+    });
+    let dir = verif_root().join("replays").join(&prop);
+    let _ = std::fs::create_dir_all(&dir);
+    let path = dir.join(format!("{name}.json"));
+    std::fs::write(&path, serde_json::to_string_pretty(&body).unwrap()).expect("write");
+    println!("{}", path.display());
+}
